@@ -57,3 +57,156 @@ def lemma_not_all_digits(reg, repo):
 
 
 LEMMAS = {"not_all_digits": lemma_not_all_digits}
+
+
+# ----------------------------------------------------------------------------------------------------------------------
+# "LoPar output is refused exactly for grammars that are not context-free"
+#   grammaranalysis.is_contextfree  verified: True iff every linearization of every rule has at most one argument
+#                                   (nested loops over the keys of a nested dict, early return)
+#   grammaranalysis.fan_out         used through the contract "result[0] is the number of arguments of the
+#                                   linearization"; that clause is proved on the last two statements of the function
+#                                   (block), the per-symbol fan-outs (a Counter over a nested comprehension) are
+#                                   bounded only
+#   grammaroutput.lopar             the guard statement (block): ValueError iff not is_contextfree(gram)
+# Linearizations are opaque dict keys here; LINLEN(key) names "the number of arguments of that linearization".
+# ----------------------------------------------------------------------------------------------------------------------
+from pyvc import sym as _sym
+LINLEN = z3.Function("lin_arguments", _sym.KeyS, z3.IntSort())
+
+
+def all_rules_have_one_argument(g):
+    f, l = z3.Const(fresh_name("cf"), _sym.KeyS), z3.Const(fresh_name("cl"), _sym.KeyS)
+    return z3.ForAll([f, l], z3.Implies(z3.And(_sym._sel(g.pres[0], [f]), _sym._sel(g.pres[1], [f, l])), LINLEN(l) <= 1))
+
+
+def add_contextfree(reg):
+    from pyvc.sym import TMap, TList, INT, BOOL
+
+    reg.add(Contract(
+        target="trees.grammaranalysis.fan_out", prop="C09", args=dict(lin=None),
+        ensures={"first_entry_is_the_number_of_arguments": lambda S, lin, result: VBool(z3.And(
+            result.n >= 1, toint(result.get(0)) == LINLEN(_sym.key_term(lin))))},
+        result_type=TList(INT), assumed=True,
+        note="fan_out(lin)[0] == number of arguments of lin (proved on the last two statements of fan_out: lemma "
+             "fan_out_first_entry); the per-symbol entries are bounded only"))
+
+    def outer(S):
+        g, seq, it = S.grammar, S.seq, toint(S.it)
+        i, k = z3.Int(fresh_name("oi")), z3.Const(fresh_name("ok"), _sym.KeyS)
+        return VBool(z3.ForAll([i, k], z3.Implies(
+            z3.And(0 <= i, i < it, _sym._sel(g.pres[1], [seq.get(i).t, k])), LINLEN(k) <= 1)))
+
+    def inner(S):
+        seq, it = S.seq, toint(S.it)
+        j = z3.Int(fresh_name("ij"))
+        return VBool(z3.ForAll([j], z3.Implies(z3.And(0 <= j, j < it), LINLEN(seq.get(j).t) <= 1)))
+
+    reg.add(Contract(
+        target="trees.grammaranalysis.is_contextfree", prop="C09", args=dict(grammar=TMap(3)),
+        ensures={"iff_every_linearization_has_at_most_one_argument": lambda S, grammar, result: VBool(
+            tobool(result) == all_rules_have_one_argument(grammar))},
+        result_type=BOOL, loops={0: dict(inv=outer), 1: dict(inv=inner)}))
+
+
+_build0 = build
+
+
+def build(reg):
+    _build0(reg)
+    add_contextfree(reg)
+
+
+VERIFY.append("trees.grammaranalysis.is_contextfree")
+
+
+def lemma_fan_out_first_entry(reg, repo):
+    """the last two statements of fan_out: result[0] = len(lin); return result"""
+    import ast
+    from pyvc.core import Exec, State
+    from pyvc.heap import Heap
+    from pyvc.sym import TList, TTuple, TOpt, INT, fresh, Unsupported
+    qual = "trees.grammaranalysis.fan_out"
+    info = repo.fns.get(qual)
+    if info is None:
+        raise Unsupported("function %s no longer exists" % qual)
+    body = info.node.body
+    if len(body) < 2 or not isinstance(body[-1], ast.Return) or ast.unparse(body[-1]) != "return result":
+        raise Unsupported("fan_out no longer ends in `return result`")
+    tail = body[-2:]
+    c = Contract(target=qual, prop="C09", args={}, loops={})
+    ex = Exec(repo, reg, info, c, prefix="C09.fan_out_tail")
+    st = State(heap=Heap.fresh("F"))
+    ex.entry_heap = st.heap.copy()
+    assume = []
+    lin = fresh(TList(TList(TTuple(INT, INT))), "f_lin", assume=assume)
+    result = fresh(TList(TOpt(INT)), "f_result", assume=assume)
+    for t in assume:
+        st.assume(t)
+    st.assume(result.n >= 1)            # [None] * (len(cnt) + 1)
+    st.env.update(dict(lin=lin, result=result))
+    ex.obligations = []
+    outs = ex._with_raises(st, ex.exec_block(tail, st))
+    vcs = []
+    for oi, o in enumerate(outs):
+        if o.kind != "return":
+            raise Unsupported("the tail of fan_out leaves by %s" % o.kind)
+        r = ex.iter_list(o.val, o.st, None)
+        first = r.get(0)
+        first_t = first.val.t if hasattr(first, "isnone") else toint(first)
+        notnone = z3.Not(first.isnone) if hasattr(first, "isnone") else z3.BoolVal(True)
+        vcs.append(("path%d.first_entry_is_the_number_of_arguments" % oi, list(o.st.pc),
+                    z3.And(r.n == result.n, notnone, first_t == lin.n)))
+    for ob in ex.obligations:
+        vcs.append(("tail.%s" % ob.name.split(".", 2)[-1], list(ob.pc), ob.goal))
+    return vcs
+
+
+lemma_fan_out_first_entry.target = "trees.grammaranalysis.fan_out"
+LEMMAS["fan_out_first_entry"] = lemma_fan_out_first_entry
+
+
+def lemma_lopar_guard(reg, repo):
+    """the guard of grammaroutput.lopar: ValueError exactly when the grammar is not context-free"""
+    import ast
+    from pyvc.core import Exec, State
+    from pyvc.heap import Heap
+    from pyvc.sym import TMap, fresh, Unsupported
+    qual = "trees.grammaroutput.lopar"
+    info = repo.fns.get(qual)
+    if info is None:
+        raise Unsupported("function %s no longer exists" % qual)
+    guard = [s for s in info.node.body if isinstance(s, ast.If) and "is_contextfree(gram)" in ast.unparse(s.test)]
+    if len(guard) != 1:
+        raise Unsupported("the context-freeness guard of grammaroutput.lopar was not found")
+    # nothing is written before the guard: no statement before it opens or writes a file
+    before = info.node.body[:info.node.body.index(guard[0])]
+    writes_before = any(isinstance(n, (ast.With, ast.Call)) and "open" in ast.unparse(n) for s in before for n in ast.walk(s))
+    add_contextfree(reg)
+    c = Contract(target=qual, prop="C09", args={}, loops={})
+    ex = Exec(repo, reg, info, c, prefix="C09.lopar_guard")
+    st = State(heap=Heap.fresh("G"))
+    ex.entry_heap = st.heap.copy()
+    assume = []
+    gram = fresh(TMap(3), "g_gram", assume=assume)
+    for t in assume:
+        st.assume(t)
+    st.env.update(dict(gram=gram))
+    ex.obligations = []
+    outs = ex._with_raises(st, ex.exec_block(guard, st))
+    vcs = [("nothing_is_opened_before_the_guard", [], z3.BoolVal(not writes_before))]
+    cf = all_rules_have_one_argument(gram)
+    for oi, o in enumerate(outs):
+        if o.kind == "raise":
+            vcs.append(("path%d.refusal_is_a_ValueError_and_only_for_non_context_free_grammars" % oi, list(o.st.pc),
+                        z3.And(z3.BoolVal(o.exc == "ValueError"), z3.Not(cf))))
+        elif o.kind == "normal":
+            vcs.append(("path%d.context_free_grammars_pass_the_guard" % oi, list(o.st.pc), cf))
+        else:
+            raise Unsupported("the guard of lopar leaves by %s" % o.kind)
+    for ob in ex.obligations:
+        vcs.append(("guard.%s" % ob.name.split(".", 2)[-1], list(ob.pc), ob.goal))
+    return vcs
+
+
+lemma_lopar_guard.target = "trees.grammaroutput.lopar"
+LEMMAS["lopar_guard"] = lemma_lopar_guard
